@@ -1044,10 +1044,8 @@ Lemma export_git_nodup s g :
 Proof.
   intros H. unfold export_refs. cbn [fst snd].
   apply (fold_invariant (fun e => NoDup (keys (x_git e)))).
-  { intros e n He. unfold export_update. destruct (exp_old_new s n) as [old new].
-    change ((fun n0 : N => (get (grefs s) n0, get (local s) n0)) n) with (exp_old_new s n).
-    destruct (exp_old_new s n) as [o' n'].
-    destruct (classify_export o' n') as [|r|o c|o]; try assumption.
+  { intros e n He. unfold export_update. cbv beta iota.
+    destruct (classify_export (get (grefs s) n) (get (local s) n)) as [|r|o c|o]; try assumption.
     unfold update_git_ref, create_git_ref, move_git_ref.
     destruct (o =? 0).
     - destruct (gget (x_git e) n =? 0); [now apply gset_nodup|].
@@ -1056,9 +1054,8 @@ Proof.
       destruct (gget (x_git e) n =? 0); [assumption|].
       destruct (gget (x_git e) n =? c); assumption. }
   apply (fold_invariant (fun e => NoDup (keys (x_git e)))).
-  { intros e n He. unfold export_delete.
-    destruct ((fun n0 : N => (get (grefs s) n0, get (local s) n0)) n) as [o' n'].
-    destruct (classify_export o' n') as [|r|o c|o]; try assumption.
+  { intros e n He. unfold export_delete. cbv beta iota.
+    destruct (classify_export (get (grefs s) n) (get (local s) n)) as [|r|o c|o]; try assumption.
     unfold delete_git_ref.
     destruct (gget (x_git e) n =? 0); [assumption|].
     destruct (gget (x_git e) n =? o); [now apply gset_nodup|assumption]. }
@@ -1114,8 +1111,8 @@ Section Theorems.
       + rewrite H3. cbn [fst snd]. rewrite Bool.andb_false_r. auto.
       + rewrite H3, H1. cbn [fst snd negb andb]. auto.
       + rewrite H2, H3, H4, H1. cbn [negb andb]. split; [reflexivity|].
-        destruct (teqb (resolved (gget g n)) (get (local s) n)) eqn:T; cbn [negb]; [|reflexivity].
-        apply teqb_spec in T. rewrite <- H3 in T at 2. rewrite <- H3. exact T.
+        destruct (teqb (resolved (gget g n)) (get (local s) n)) eqn:T; cbn [negb andb]; [|reflexivity].
+        now apply teqb_spec in T.
     - intros n Hnf Hc. apply NF in Hnf. destruct (SP n) as [_ [_ [B _]]]. rewrite B.
       destruct (export_name_synced (get (local s) n) (gget g n)) as [[H1 [H2 H3]]|[[H1 H3]|[H1 [H2 [H3 H4]]]]].
       + rewrite H3 in Hnf. discriminate.
@@ -1162,13 +1159,8 @@ Section Theorems.
     pose proof (export_git_nodup s1 g Hnd) as Hnd2.
     destruct (export_refs s1 g) as [[s2 g2] failed]. cbn [fst snd] in Hnd2.
     destruct H as [H1 [H2 [H3 [H4 H5]]]]. cbv zeta.
-    repeat split; try assumption; try (now apply H4 with (1 := H)); try (now apply H5).
-    - eapply H4; eassumption.
-    - eapply H4; eassumption.
-    - eapply H4; eassumption.
-    - apply (import_of_synced s2 g2 n Hnd2 H2).
-    - apply (import_of_synced s2 g2 n Hnd2 H2).
-    - apply (import_of_synced s2 g2 n Hnd2 H2).
+    split; [exact H3|]. split; [exact H4|]. split; [exact H5|]. split; [exact H1|].
+    intros n. apply (import_of_synced s2 g2 n Hnd2 H2).
   Qed.
 
   (** One-sided changes. *)
@@ -1231,22 +1223,21 @@ Section Theorems.
         get (local s1) n = [a; b; c] /\ get (local s2) n = [a; b; c]
         /\ gget g2 n = c /\ ~ In n (failed_names failed) /\ get (rgit s2) n = resolved c
     | Some d =>
-        get (local s1) n = [d] /\ (d = a \/ d = c) /\ anc a d = true /\ anc c d = true
-        \/ get (local s1) n = [d] /\ (d = a \/ d = c) /\ (anc a d = true \/ anc c d = true)
+        get (local s1) n = [d] /\ ((d = c /\ anc a c = true) \/ (d = a /\ anc c a = true))
     end.
   Proof.
     intros Hnd HL HR Hab Hbc Hac c s1.
     assert (L1 : get (local s1) n =
                  match ff_resolves anc a b c with Some d => [d] | None => [a; b; c] end).
     { destruct (import_spec anc s g n Hnd) as [_ [_ C]]. fold s1 in C. rewrite C, HL, HR.
-      fold c. change (resolved c) with [c]. rewrite (teqb_resolved c b).
-      assert (E : c =? b = false) by (apply N.eqb_neq; congruence). rewrite E.
+      fold c. change [b] with (resolved b). rewrite (teqb_resolved c b).
+      assert (E : c =? b = false) by (apply N.eqb_neq; unfold c; congruence). rewrite E.
       apply merge_three_distinct; assumption. }
     pose proof (export_after_sync s1 g (import_synced s g Hnd)) as HX.
     destruct (export_refs s1 g) as [[s2 g2] failed].
     destruct HX as [H1 [H2 [H3 [H4 H5]]]].
     destruct (ff_resolves anc a b c) as [d|] eqn:F.
-    - right. split; [assumption|]. unfold ff_resolves in F.
+    - split; [assumption|]. unfold ff_resolves in F.
       destruct ((a =? 0) || (c =? 0)); [discriminate|].
       destruct (anc a c) eqn:Aac.
       + destruct ((b =? 0) || anc b a); [|discriminate]. injection F as <-. auto.
@@ -1270,7 +1261,7 @@ Section Theorems.
           gget g2 n = gget g n /\ get (grefs s2) n = get (grefs s) n
           /\ get (rgit s2) n = get (rgit s) n)
     /\ (has_conflict (get (local s) n) = true ->
-          gget g2 n = gget g n /\ ~ In n (failed_names failed)
+          gget g2 n = gget g n /\ (forall x, In (n, x) failed -> x = ConflictedOldState)
           /\ get (grefs s2) n = get (grefs s) n /\ get (rgit s2) n = get (rgit s) n)
     /\ (~ In n (failed_names failed) -> has_conflict (get (local s) n) = false ->
           get (rgit s2) n = get (local s) n).
@@ -1294,10 +1285,401 @@ Section Theorems.
       { intros C. apply NF in C. contradiction. }
       specialize (K2 Hs). rewrite HC, HG, HR. rewrite K2. cbn [fst snd].
       destruct (snd r); [|congruence]. rewrite Bool.andb_false_r. auto.
-    - intros Hc. specialize (K3 Hc). rewrite HC, HG, HR, NF, K3. cbn [fst snd].
-      rewrite Hc. cbn [negb andb]. auto.
+    - intros Hc. destruct (K3 Hc) as [K3a K3b]. rewrite HC, HG, HR, K3a. cbn [fst snd].
+      rewrite Hc. cbn [negb andb]. repeat split.
+      intros x Hx. apply HF in Hx. destruct K3b as [K|K]; congruence.
     - intros Hnf Hc. apply NF in Hnf. rewrite HR, Hnf, Hc. cbn [negb andb].
       destruct (teqb (get (rgit s) n) (get (local s) n)) eqn:T; cbn [negb]; [|reflexivity].
       now apply teqb_spec in T.
   Qed.
 End Theorems.
+
+(** * The property checker: meaning, and the model passes it *)
+Lemma if_else_true (b x : bool) : (if b then x else true) = true <-> (b = true -> x = true).
+Proof. destruct b; split; auto; discriminate. Qed.
+Lemma forallb_names {A} (f : A -> bool) l : forallb f l = true <-> (forall n, In n l -> f n = true).
+Proof. apply forallb_forall. Qed.
+
+Definition ImportOk (anc : N -> N -> bool) (pre post : snapshot) (n : N) : Prop :=
+  let l := get (o_local pre) n in
+  let r := get (o_rgit pre) n in
+  let c := gget (o_git pre) n in
+  let l' := get (o_local post) n in
+  gget (o_git post) n = c
+  /\ get (o_rgit post) n = resolved c /\ get (o_grefs post) n = resolved c
+  /\ (resolved c = r -> l' = l)
+  /\ (l = r -> l' = resolved c)
+  /\ (l = resolved c -> l' = l)
+  /\ (forall a b, l = [a] -> r = [b] -> a <> b -> b <> c -> a <> c ->
+        l' = match ff_resolves anc a b c with Some d => [d] | None => [a; b; c] end).
+
+Lemma import_name_ok_spec anc pre post n :
+  import_name_ok anc pre post n = true <-> ImportOk anc pre post n.
+Proof.
+  unfold import_name_ok, ImportOk, tgt. cbv zeta.
+  set (l := get (o_local pre) n). set (r := get (o_rgit pre) n).
+  set (c := gget (o_git pre) n). set (l' := get (o_local post) n).
+  rewrite !Bool.andb_true_iff, !if_else_true, !teqb_spec, N.eqb_eq.
+  assert (Last :
+    match l with
+    | [a] => match r with
+             | [b] => if (a =? b) || (b =? c) || (a =? c) then true
+                      else match ff_resolves anc a b c with
+                           | Some d => teqb l' [d] | None => teqb l' [a; b; c] end
+             | _ => true end
+    | _ => true end = true <->
+    (forall a b, l = [a] -> r = [b] -> a <> b -> b <> c -> a <> c ->
+        l' = match ff_resolves anc a b c with Some d => [d] | None => [a; b; c] end)).
+  { destruct l as [|a [|? ?]].
+    - split; [intros _ x y H; discriminate|reflexivity].
+    - destruct r as [|b [|? ?]].
+      + split; [intros _ x y H H2; discriminate|reflexivity].
+      + destruct ((a =? b) || (b =? c) || (a =? c)) eqn:E.
+        * split; [|reflexivity]. intros _ x y Ha Hb Hab Hbc Hac.
+          injection Ha as <-. injection Hb as <-.
+          apply Bool.orb_true_iff in E. destruct E as [E|E];
+            [apply Bool.orb_true_iff in E; destruct E as [E|E]|]; apply N.eqb_eq in E; congruence.
+        * apply Bool.orb_false_iff in E. destruct E as [E E3].
+          apply Bool.orb_false_iff in E. destruct E as [E1 E2].
+          apply N.eqb_neq in E1, E2, E3. split.
+          -- intros H x y Ha Hb _ _ _. injection Ha as <-. injection Hb as <-.
+             destruct (ff_resolves anc a b c); now apply teqb_spec in H.
+          -- intros H. specialize (H a b eq_refl eq_refl E1 E2 E3). rewrite H.
+             destruct (ff_resolves anc a b c); apply teqb_refl.
+      + split; [intros _ x y H H2; discriminate|reflexivity].
+    - split; [intros _ x y H; discriminate|reflexivity]. }
+  rewrite Last. tauto.
+Qed.
+
+Definition ExportOk (pre post : snapshot) (failed : list (N * N)) (n : N) : Prop :=
+  let l := get (o_local pre) n in
+  let gr := get (o_grefs pre) n in
+  let c := gget (o_git pre) n in
+  let c' := gget (o_git post) n in
+  let is_failed := In n (map fst failed) in
+  get (o_local post) n = l
+  /\ (c' = c \/ (gr = resolved c /\ l = resolved c' /\ ~ is_failed))
+  /\ (has_conflict l = true ->
+        c' = c /\ get (o_grefs post) n = gr /\ get (o_rgit post) n = get (o_rgit pre) n
+        /\ forall x, In (n, x) failed -> x = 1)
+  /\ (is_failed ->
+        c' = c /\ get (o_grefs post) n = gr /\ get (o_rgit post) n = get (o_rgit pre) n)
+  /\ (~ is_failed -> has_conflict l = false ->
+        get (o_rgit post) n = l
+        /\ (gr = resolved c -> resolved c' = l /\ get (o_grefs post) n = l)).
+
+Lemma failed_codes_spec n (failed : list (N * N)) :
+  forallb (fun p => negb (fst p =? n) || (snd p =? 1)) failed = true <->
+  (forall x, In (n, x) failed -> x = 1).
+Proof.
+  rewrite forallb_forall. split.
+  - intros H x Hin. specialize (H (n, x) Hin). cbn [fst snd] in H.
+    rewrite N.eqb_refl in H. cbn [negb orb] in H. now apply N.eqb_eq.
+  - intros H [k x] Hin. cbn [fst snd]. destruct (k =? n) eqn:E; [|reflexivity].
+    apply N.eqb_eq in E. subst k. cbn [negb orb]. apply N.eqb_eq. now apply H.
+Qed.
+
+Lemma export_name_ok_spec pre post failed n :
+  export_name_ok pre post failed n = true <-> ExportOk pre post failed n.
+Proof.
+  unfold export_name_ok, ExportOk, tgt. cbv zeta.
+  set (l := get (o_local pre) n). set (gr := get (o_grefs pre) n).
+  set (c := gget (o_git pre) n). set (c' := gget (o_git post) n).
+  destruct (mem N.eqb n (map fst failed)) eqn:M;
+    [apply mem_spec in M|apply mem_false in M];
+    destruct (has_conflict l) eqn:Hc; cbn [negb andb];
+    rewrite ?Bool.andb_true_r;
+    rewrite ?Bool.andb_true_iff, ?if_else_true, ?Bool.orb_true_iff, ?Bool.andb_true_iff,
+      ?teqb_spec, ?N.eqb_eq, ?failed_codes_spec;
+    intuition (try congruence; try discriminate).
+Qed.
+
+Definition SnapEqAt (a b : snapshot) (n : N) : Prop :=
+  get (o_local a) n = get (o_local b) n /\ get (o_rgit a) n = get (o_rgit b) n
+  /\ get (o_grefs a) n = get (o_grefs b) n /\ gget (o_git a) n = gget (o_git b) n.
+Definition SnapEq (names : list N) (a b : snapshot) : Prop :=
+  forall n, In n names -> SnapEqAt a b n.
+
+Lemma snap_eqb_on_spec names a b : snap_eqb_on names a b = true <-> SnapEq names a b.
+Proof.
+  unfold snap_eqb_on, rmap_eqb_on, gmap_eqb_on, SnapEq, SnapEqAt.
+  rewrite !Bool.andb_true_iff, !forallb_forall. split.
+  - intros [[[H1 H2] H3] H4] n Hn. specialize (H1 n Hn). specialize (H2 n Hn).
+    specialize (H3 n Hn). specialize (H4 n Hn).
+    apply teqb_spec in H1, H2, H3. apply N.eqb_eq in H4. auto.
+  - intros H. repeat split; intros n Hn; destruct (H n Hn) as [H1 [H2 [H3 H4]]];
+      try (now apply teqb_spec); now apply N.eqb_eq.
+Qed.
+
+Definition TripleOk (names : list N) (i1_post e_pre e_post : snapshot)
+  (failed : list (N * N)) (i2_pre i2_post : snapshot) : Prop :=
+  SnapEq names i1_post e_pre /\ SnapEq names e_post i2_pre /\ SnapEq names i2_pre i2_post
+  /\ forall n, In n names ->
+       let l := get (o_local i1_post) n in
+       (In n (map fst failed) -> l = resolved root_id)
+       /\ (~ In n (map fst failed) -> has_conflict l = false ->
+           resolved (gget (o_git e_post) n) = l).
+
+Lemma triple_ok_spec names a b c f d e :
+  triple_ok names a b c f d e = true <-> TripleOk names a b c f d e.
+Proof.
+  unfold triple_ok, TripleOk, tgt. rewrite !Bool.andb_true_iff, !snap_eqb_on_spec, forallb_forall.
+  split.
+  - intros [[[H1 H2] H3] H4]. split; [exact H1|split; [exact H2|split; [exact H3|]]].
+    intros n H. split.
+    + intros Hf. specialize (H4 n H). cbv zeta in H4. apply mem_spec in Hf. rewrite Hf in H4.
+      now apply teqb_spec.
+    + intros Hf Hc. specialize (H4 n H). cbv zeta in H4. apply mem_false in Hf.
+      rewrite Hf, Hc in H4. now apply teqb_spec.
+  - intros [H1 [H2 [H3 H4]]]. split; [split; [split; [exact H1|exact H2]|exact H3]|].
+    intros n Hn. specialize (H4 n Hn). cbv zeta in *. destruct H4 as [A B].
+    destruct (mem N.eqb n (map fst f)) eqn:M.
+    + apply mem_spec in M. apply teqb_spec. auto.
+    + apply mem_false in M. destruct (has_conflict (get (o_local a) n)) eqn:Hc; [reflexivity|].
+      apply teqb_spec. auto.
+Qed.
+
+(** The meaning of [steps_ok]: every observed import and export satisfies the per-name
+    conditions, and every observed [Import; Export; Import] run converged. *)
+Fixpoint StepsOk (anc : N -> N -> bool) (names : list N) (steps : list step) : Prop :=
+  match steps with
+  | [] => True
+  | Import pre post :: r =>
+      (forall n, In n names -> ImportOk anc pre post n)
+      /\ match r with
+         | Export epre epost failed :: Import ipre ipost :: _ =>
+             TripleOk names post epre epost failed ipre ipost
+         | _ => True
+         end
+      /\ StepsOk anc names r
+  | Export pre post failed :: r =>
+      (forall n, In n names -> ExportOk pre post failed n) /\ StepsOk anc names r
+  | _ :: r => StepsOk anc names r
+  end.
+
+Lemma steps_ok_spec anc names steps :
+  steps_ok anc names steps = true <-> StepsOk anc names steps.
+Proof.
+  induction steps as [|a r IH]; cbn [steps_ok StepsOk]; [tauto|].
+  destruct a as [m t|m t|m t|m c|pre post|pre post failed]; try exact IH.
+  - rewrite !Bool.andb_true_iff, forallb_forall, IH.
+    assert (T : match r with
+                | Export epre epost failed :: Import ipre ipost :: _ =>
+                    triple_ok names post epre epost failed ipre ipost
+                | _ => true end = true <->
+                match r with
+                | Export epre epost failed :: Import ipre ipost :: _ =>
+                    TripleOk names post epre epost failed ipre ipost
+                | _ => True end).
+    { destruct r as [|[| | | | |epre epost failed] [|[| | | |ipre ipost|] r']]; try tauto.
+      apply triple_ok_spec. }
+    rewrite T. split.
+    + intros [[H1 H2] H3]. split; [|split; assumption].
+      intros k Hk. apply import_name_ok_spec. auto.
+    + intros [H1 [H2 H3]]. split; [split; [|assumption]|assumption].
+      intros k Hk. apply import_name_ok_spec. auto.
+  - rewrite !Bool.andb_true_iff, forallb_forall, IH. split.
+    + intros [H1 H2]. split; [|assumption]. intros k Hk. apply export_name_ok_spec. auto.
+    + intros [H1 H2]. split; [|assumption]. intros k Hk. apply export_name_ok_spec. auto.
+Qed.
+
+(** ** The model's own runs pass the checker *)
+Section ModelPasses.
+  Context (anc : N -> N -> bool).
+
+  Lemma model_import_ok s g n : NoDup (keys g) ->
+    ImportOk anc (snap_of s g) (snap_of (import_refs anc s g) g) n.
+  Proof.
+    intros Hnd. unfold ImportOk, snap_of. cbn [o_local o_rgit o_grefs o_git].
+    destruct (import_spec anc s g n Hnd) as [A [B C]].
+    repeat split; try assumption.
+    - intros H. now apply jj_change_kept_by_import.
+    - intros H. now apply git_change_propagates.
+    - intros H. now apply same_change_both_sides.
+    - intros a b Ha Hb Hab Hbc Hac. rewrite C, Ha, Hb.
+      change [b] with (resolved b). rewrite teqb_resolved.
+      assert (E : gget g n =? b = false) by (apply N.eqb_neq; congruence). rewrite E.
+      apply merge_three_distinct; assumption.
+  Qed.
+
+  Definition codes (f : list (N * reason)) : list (N * N) :=
+    map (fun p => (fst p, reason_code (snd p))) f.
+  Lemma codes_names f : map fst (codes f) = failed_names f.
+  Proof. unfold codes, failed_names. rewrite map_map. reflexivity. Qed.
+
+  Lemma export_synced_name s g n :
+    get (grefs s) n = resolved (gget g n) ->
+    let '(s2, g2, failed) := export_refs s g in
+    ~ In n (failed_names failed) -> has_conflict (get (local s) n) = false ->
+    resolved (gget g2 n) = get (local s) n /\ get (grefs s2) n = get (local s) n.
+  Proof.
+    intros Hg. pose proof (export_spec s g n) as H.
+    destruct (export_refs s g) as [[s2 g2] failed]. cbv zeta in H.
+    destruct H as [_ [HG [HC [HF _]]]]. rewrite Hg in *.
+    intros Hnf Hc. rewrite HG, HC.
+    destruct (export_name_synced (get (local s) n) (gget g n)) as [[H1 [H2 H3]]|[[H1 H3]|[H1 [H2 [H3 H4]]]]].
+    - exfalso. apply Hnf. unfold failed_names. apply in_map_iff.
+      exists (n, OnRootCommit). split; [reflexivity|]. apply HF. now rewrite H3.
+    - congruence.
+    - auto.
+  Qed.
+
+  Lemma model_export_ok s g n :
+    let '(s2, g2, failed) := export_refs s g in
+    ExportOk (snap_of s g) (snap_of s2 g2) (codes failed) n.
+  Proof.
+    pose proof (export_cas s g n) as H. pose proof (export_synced_name s g n) as K.
+    destruct (export_refs s g) as [[s2 g2] failed].
+    destruct H as [H1 [H2 [H3 [H4 H5]]]].
+    unfold ExportOk, snap_of. cbn [o_local o_rgit o_grefs o_git]. rewrite codes_names.
+    split; [now rewrite H1|]. split; [|split; [|split]].
+    - destruct (N.eq_dec (gget g2 n) (gget g n)) as [E|E]; [now left|right].
+      destruct (H2 E) as [A [B [C _]]]. auto.
+    - intros Hc. destruct (H4 Hc) as [A [B [C D]]]. repeat split; try assumption.
+      intros x Hx. unfold codes in Hx. apply in_map_iff in Hx.
+      destruct Hx as [[k r] [E Hx]]. cbn [fst snd] in E. injection E as -> <-.
+      now rewrite (B r Hx).
+    - exact H3.
+    - intros Hnf Hc. split; [now apply H5|]. intros Hg. now apply K.
+  Qed.
+End ModelPasses.
+
+(** * Histories *)
+Lemma run_nodup anc steps : forall sg,
+  NoDup (keys (snd sg)) -> NoDup (keys (snd (fold_left (step_exec anc) steps sg))).
+Proof.
+  apply (fold_invariant (fun sg => NoDup (keys (snd sg)))).
+  intros [s g] a H. cbn [snd] in H.
+  destruct a as [m t|m t|m t|m c|pre post|pre post failed]; cbn [step_exec snd]; try assumption.
+  - now apply gset_nodup.
+  - now apply export_git_nodup.
+Qed.
+Lemma run_git_nodup anc steps : NoDup (keys (snd (run anc steps))).
+Proof. unfold run. apply run_nodup. constructor. Qed.
+
+Theorem one_sided_propagates anc (s : view) (g : gmap) (n : N) : NoDup (keys g) ->
+  (get (local s) n = get (rgit s) n ->
+     get (local (import_refs anc s g)) n = resolved (gget g n))
+  /\ (resolved (gget g n) = get (rgit s) n ->
+      get (local (import_refs anc s g)) n = get (local s) n
+      /\ (has_conflict (get (local s) n) = false -> get (local s) n <> resolved root_id ->
+          let '(s2, g2, failed) := export_refs (import_refs anc s g) g in
+          resolved (gget g2 n) = get (local s) n /\ get (local s2) n = get (local s) n
+          /\ get (rgit s2) n = get (local s) n /\ ~ In n (failed_names failed))).
+Proof.
+  intros Hnd. split.
+  - now apply git_change_propagates.
+  - intros H. split; [now apply jj_change_kept_by_import|].
+    intros Hc Hr. exact (jj_change_propagates anc s g n Hnd H Hc Hr).
+Qed.
+
+Theorem merge_loop_terminates anc (m : target) :
+  find_pair_to_remove anc (nontrivial anc (length m) m) = None.
+Proof. apply nontrivial_fixpoint. lia. Qed.
+
+Theorem converge_after_any_history anc (steps : list step) :
+  let '(s, g) := run anc steps in
+  let s1 := import_refs anc s g in
+  let '(s2, g2, failed) := export_refs s1 g in
+  let s3 := import_refs anc s2 g2 in
+  (forall n, ~ In n (failed_names failed) -> has_conflict (get (local s1) n) = false ->
+             resolved (gget g2 n) = get (local s1) n)
+  /\ (forall n x, In (n, x) failed -> x = OnRootCommit /\ get (local s1) n = resolved root_id)
+  /\ (forall n, get (local s3) n = get (local s2) n /\ get (rgit s3) n = get (rgit s2) n
+                /\ get (grefs s3) n = get (grefs s2) n).
+Proof.
+  pose proof (run_git_nodup anc steps) as H.
+  destruct (run anc steps) as [s g]. cbn [snd] in H.
+  pose proof (converge anc s g H) as C. cbv zeta in C. cbv zeta.
+  destruct (export_refs (import_refs anc s g) g) as [[s2 g2] failed].
+  destruct C as [C1 [C2 [_ [_ C5]]]]. split; [exact C1|]. split; [|exact C5].
+  intros n x Hin. destruct (C2 n x Hin) as [A [B _]]. auto.
+Qed.
+
+(** * Agreement with the model implies the property on the observations *)
+Lemma SnapEqAt_sym a b n : SnapEqAt a b n -> SnapEqAt b a n.
+Proof. unfold SnapEqAt. intuition congruence. Qed.
+Lemma SnapEqAt_trans a b c n : SnapEqAt a b n -> SnapEqAt b c n -> SnapEqAt a c n.
+Proof. unfold SnapEqAt. intuition congruence. Qed.
+
+Lemma ImportOk_transfer anc a a' b b' n :
+  SnapEqAt a a' n -> SnapEqAt b b' n -> ImportOk anc a b n -> ImportOk anc a' b' n.
+Proof.
+  intros [A1 [A2 [A3 A4]]] [B1 [B2 [B3 B4]]]. unfold ImportOk. cbv zeta.
+  rewrite <- A1, <- A2, <- A4, <- B1, <- B2, <- B3, <- B4. auto.
+Qed.
+Lemma ExportOk_transfer a a' b b' f n :
+  SnapEqAt a a' n -> SnapEqAt b b' n -> ExportOk a b f n -> ExportOk a' b' f n.
+Proof.
+  intros [A1 [A2 [A3 A4]]] [B1 [B2 [B3 B4]]]. unfold ExportOk. cbv zeta.
+  rewrite <- A1, <- A2, <- A3, <- A4, <- B1, <- B2, <- B3, <- B4. auto.
+Qed.
+
+Lemma failed_eqb_spec f failed : failed_eqb f failed = true -> failed = codes f.
+Proof.
+  unfold failed_eqb, codes. generalize (map (fun p => (fst p, reason_code (snd p))) f) as l.
+  intros l. revert failed. induction l as [|[k x] l IH]; destruct failed as [|[k' x'] failed];
+    cbn [list_eqb]; try discriminate; [reflexivity|].
+  rewrite Bool.andb_true_iff. unfold pair_eqb. cbn [fst snd]. rewrite Bool.andb_true_iff, !N.eqb_eq.
+  intros [[-> ->] H]. f_equal. now apply IH.
+Qed.
+
+Theorem replay_implies_steps_ok anc names steps : forall s g,
+  NoDup (keys g) -> replay anc names steps s g = true -> StepsOk anc names steps.
+Proof.
+  induction steps as [|a r IH]; intros s g Hnd Hr; cbn [StepsOk]; [exact I|].
+  destruct a as [m t|m t|m t|m c|pre post|pre post failed]; cbn [replay] in Hr.
+  - eapply IH; eassumption.
+  - eapply IH; eassumption.
+  - eapply IH; eassumption.
+  - eapply IH; [|eassumption]. now apply gset_nodup.
+  - rewrite !Bool.andb_true_iff, !snap_eqb_on_spec in Hr.
+    destruct Hr as [[[[_ _] Hpre] Hpost] Hrest].
+    split; [|split; [|eapply IH; eassumption]].
+    + intros n Hn. apply (ImportOk_transfer anc (snap_of s g) pre
+                            (snap_of (import_refs anc s g) g) post n); auto.
+      now apply model_import_ok.
+    + destruct r as [|[| | | | |epre epost failed] [|[| | | |ipre ipost|] r']]; try exact I.
+      cbn [replay] in Hrest.
+      pose proof (converge anc s g Hnd) as CV. cbv zeta in CV.
+      pose proof (export_git_nodup (import_refs anc s g) g Hnd) as Hnd2.
+      destruct (export_refs (import_refs anc s g) g) as [[s2 g2] f] eqn:EX.
+      cbn [fst snd] in Hnd2.
+      rewrite !Bool.andb_true_iff, !snap_eqb_on_spec in Hrest.
+      destruct Hrest as [[[[[_ _] Hepre] Hepost] Hf] [[[[_ _] Hipre] Hipost] _]].
+      apply failed_eqb_spec in Hf. subst failed.
+      destruct CV as [C1 [C2 [C3 [C4 C5]]]].
+      unfold TripleOk. split; [|split; [|split]].
+      * intros n Hn. eapply SnapEqAt_trans; [apply SnapEqAt_sym; now apply Hpost|now apply Hepre].
+      * intros n Hn. eapply SnapEqAt_trans; [apply SnapEqAt_sym; now apply Hepost|now apply Hipre].
+      * intros n Hn. eapply SnapEqAt_trans; [apply SnapEqAt_sym; now apply Hipre|].
+        eapply SnapEqAt_trans; [|now apply Hipost].
+        unfold SnapEqAt, snap_of. cbn [o_local o_rgit o_grefs o_git].
+        destruct (C5 n) as [A [B C]]. auto.
+      * intros n Hn. cbv zeta. rewrite codes_names.
+        destruct (Hpost n Hn) as [P1 _]. cbn [snap_of o_local] in P1. rewrite <- P1.
+        destruct (Hepost n Hn) as [_ [_ [_ P4]]]. cbn [snap_of o_git] in P4. rewrite <- P4.
+        split.
+        -- intros Hin. unfold failed_names in Hin. apply in_map_iff in Hin.
+           destruct Hin as [[k x] [E Hin]]. cbn [fst] in E. subst k.
+           now destruct (C2 n x Hin) as [_ [? _]].
+        -- intros Hnf Hc. now apply C1.
+  - destruct (export_refs s g) as [[s2 g2] f] eqn:EX.
+    rewrite !Bool.andb_true_iff, !snap_eqb_on_spec in Hr.
+    destruct Hr as [[[[[_ _] Hpre] Hpost] Hf] Hrest].
+    apply failed_eqb_spec in Hf. subst failed.
+    split.
+    + intros n Hn. apply (ExportOk_transfer (snap_of s g) pre (snap_of s2 g2) post (codes f) n); auto.
+      pose proof (model_export_ok s g n) as M. now rewrite EX in M.
+    + eapply IH; [|eassumption].
+      pose proof (export_git_nodup s g Hnd) as H. now rewrite EX in H.
+Qed.
+
+Theorem corr_implies_okb c :
+  c_flags_ok c = true ->
+  replay (ancb (c_graph c)) (c_names c) (c_steps c) empty_view [] = true ->
+  okb c = true.
+Proof.
+  intros Hf Hr. unfold okb. rewrite Hf. cbn [andb]. apply steps_ok_spec.
+  eapply replay_implies_steps_ok; [|eassumption]. constructor.
+Qed.
